@@ -638,6 +638,7 @@ func TestVerifC13(t *testing.T) {
 	r := mc.NewReport("C13")
 	old := debug.SetGCPercent(400) // every Builder allocates four 16 MB posting arrays; keep them recyclable
 	defer debug.SetGCPercent(old)
+	defer debug.SetMemoryLimit(debug.SetMemoryLimit(20 << 30)) // ... but never beyond what the machine has (thorough tier: many live builders)
 	base := os.Getenv("VERIF_SCRATCH")
 	if base == "" {
 		base = "/dev/shm"
